@@ -311,6 +311,13 @@ theorem Full.received_ledgers_are_the_frames (c : Conn) (evs : List Event) :
   obtain ⟨a, b⟩ := grun_inc evs (Led.init c) c
   exact ⟨by rw [a]; simp [Led.init], fun sid hs => by rw [b sid hs]; simp [Led.init]⟩
 
+/-- **Full.iws_ledger_is_the_settings_history**: the INITIAL_WINDOW_SIZE ledger is the fold of `Led.recv` over the frames
+the read loop went through: the value of the last SETTINGS frame (not an acknowledgement) among them that carries
+INITIAL_WINDOW_SIZE, the handshake's value if there is none -/
+theorem Full.iws_ledger_is_the_settings_history (c : Conn) (evs : List Event) :
+    (grun (Led.init c) c evs).1.iws = ((runTaken c evs).foldl Led.recv (Led.init c)).iws :=
+  grun_iws evs _ _
+
 /-- **Full.connection_flow_control**, no ghost left: in any run, the DATA octets of all frames the client writes are at
 most 65 535 plus the increments of all WINDOW_UPDATE frames on stream 0 its read loop went through -/
 theorem Full.connection_flow_control (c : Conn) (h : InitF c) (evs : List Event) :
